@@ -161,6 +161,38 @@ class ConstructH(_Arr):
         default = (lambda v: st["dv"]) if mode.endswith("callable") else None
         return st["arr"].construct(dict(st["d"]), default, dtype)
 
+    def concretise(self, case, k, model, c, st):
+        from .common import _mv
+        return {"case": dict(case), "lo": [_mv(model, v.t) for v in st["lo"]],
+                "hi": [_mv(model, v.bounds.upper.t) for v in st["vs"]],
+                "d": {kk: _mv(model, vv.t) for kk, vv in st["d"].items()}, "dv": _mv(model, st["dv"].t)}
+
+    def replay(self, w):
+        import math
+        import numpy as np
+        import puan
+        import puan.ndarray as pnd
+        case = w["case"]
+        vs = [puan.variable(f"v{j}", (w["lo"][j], max(w["lo"][j], w["hi"][j]))) for j in range(case["k"])]
+        arr = pnd.variable_ndarray(np.zeros((1, case["k"]), dtype=np.int64), variables=vs, index=[puan.variable("r")])
+        dtype = np.int64 if case["mode"].startswith("int") else float
+        default = (lambda v: w["dv"]) if case["mode"].endswith("callable") else None
+        got = arr.construct(dict(w["d"]), default, dtype).tolist()
+        bad = []
+        for j in range(case["k"]):
+            if case["present"][j] == "1":
+                want = w["d"][f"v{j}"]
+            elif default:
+                want = w["dv"]
+            elif case["mode"].startswith("int"):
+                want = w["lo"][j]
+            else:
+                want = float("nan")
+            g = got[j]
+            if not ((isinstance(want, float) and math.isnan(want) and math.isnan(g)) or g == want):
+                bad.append(f"construct.entry[{j}]")
+        return {"violated": bad, "detail": {"got": [str(x) for x in got], "dict": w["d"]}}
+
     def ensures(self, c, st, res):
         case = c.state_case
         got = res.tolist()
